@@ -622,6 +622,10 @@ def run(prog, rep, tier, repo):
                 rep.undecided('arm-order', key, 'cannot evaluate arm returning %s' % show(rt)[:80], site_of(f.body))
             elif got == want:
                 rep.ok('arm-order', key, 'arm returning %s: every element is %s' % (show(rt)[:50], show_expr(got)))
+            elif not got or any(e in (('int',), ('uninit',)) or e[0] in ('int', 'uninit', 'ci', 'len') for e in got):
+                # nothing read, or integer / uninitialised placeholders among the element expressions: the arm builds its result in a way the
+                # element abstraction only partly follows (a helper filling a fresh buffer, a closure called in place) -- not read
+                rep.undecided('arm-order', key, 'elements of the arm returning %s are only partly read (%s)' % (show(rt)[:50], show_expr(got)[:60]), site_of(f.body), proof=False)
             else:
                 rep.viol('arm-order', key, 'arm returning %s yields elements %s, expected exactly %s' % (
                     show(rt)[:60], show_expr(got), show_expr(want)), site_of(f.body))
